@@ -750,7 +750,8 @@ structure Chain where
   hasAccount : Nat → Bool
 
 /-- the static environment of a message on world `w` sending `send` along -/
-def Chain.envFor (ch : Chain) (w : World) (send : Coins) : Env := { ch.env send with restricted := w.restricted }
+def Chain.envFor (ch : Chain) (w : World) (send : Coins) : Env :=
+  { ch.env send with restricted := w.restricted, osend := send }
 
 def startState (ch : Chain) (w : World) : St :=
   { bank := ⟨w.led, []⟩, toks := [], bankers := ch.persisted, spent := [],
